@@ -36,6 +36,11 @@ func wiringCases() []WiringCase {
 	for _, s := range []string{"tcp", "tcp+tls", "unix", "unix+tls", "http", "https", "ws", "wss", "stdin", "stdin+tls"} {
 		out = append(out, WiringCase{"upstream", s})
 	}
+	// a client TLS configuration that cannot be loaded: a +tls / https / wss upstream must fail,
+	// never fall back to the plain transport
+	for _, s := range []string{"tcp+tls", "unix+tls", "https", "wss"} {
+		out = append(out, WiringCase{"upstream-unloadable-tls", s})
+	}
 	return out
 }
 
@@ -253,6 +258,33 @@ func runWiring(w WiringCase) (kind, detail string) {
 		ups = list.Data[0]
 	}
 	cc := &cert.ClientConfig{InsecureSkipVerify: true}
+	if w.Wiring == "upstream-unloadable-tls" {
+		cc.CertificateFile, cc.PrivateKeyFile = "/nonexistent/verif/client.crt", "/nonexistent/verif/client.key"
+		done := make(chan error, 1)
+		go func() { done <- ups.Connect(cc, false) }()
+		select {
+		case err := <-done:
+			time.Sleep(50 * time.Millisecond)
+			mu.Lock()
+			defer mu.Unlock()
+			if len(first) > 0 && first[0] != 0x16 {
+				return "plaintext-instead-of-tls|unloadable-tls-config", fmt.Sprintf("client TLS configuration cannot be loaded; Connect to %s returned %v and the first byte on the wire was 0x%02x (plain transport)", address, err, first[0])
+			}
+			if err == nil {
+				return "connects-with-unloadable-tls-config", fmt.Sprintf("Connect to %s succeeded although the client's certificate files do not exist", address)
+			}
+			return "", ""
+		case <-got:
+			mu.Lock()
+			defer mu.Unlock()
+			if first[0] != 0x16 {
+				return "plaintext-instead-of-tls|unloadable-tls-config", fmt.Sprintf("client TLS configuration cannot be loaded; the first byte the client sent to %s was 0x%02x (plain transport)", address, first[0])
+			}
+			return "", ""
+		case <-time.After(10 * time.Second):
+			return "inconclusive", "Connect neither returned nor sent anything within 10 s real time"
+		}
+	}
 	done := make(chan error, 1)
 	go func() { done <- ups.Connect(cc, false) }()
 	select {
